@@ -306,6 +306,11 @@ def run_history(case):
     for i, r in enumerate(steps):
         r = dict(r)
         op = r["op"]
+        for f_ in ("expire", "delta", "delay"):
+            # (numbers of other int types are written ["Seconds", 2] / ["Ttl", "SHORT"] in a case, so that a replay file keeps them)
+            if isinstance(r.get(f_), (list, tuple)):
+                r[f_] = Seconds(r[f_][1]) if r[f_][0] == "Seconds" else Ttl[r[f_][1]]
+                labels.add("int-subclass-number")
         desc_hist.append(r)
         if kind.startswith("hash") and op in ("setitem", "getitem", "delitem"):
             # HashClient offers no item syntax: use the calls the item syntax stands for
@@ -544,6 +549,35 @@ def nested_key_cases(tier, seed):
                        "cfg": {"key_prefix": pfx, "default_noreply": bool(sum(seq) % 2), "universe": [a, b, c]}, "steps": [alpha[i] for i in seq]}
 
 
+class Seconds(int):
+    """an int subclass, as an application's own unit type is"""
+
+
+import enum as _enum
+
+
+class Ttl(_enum.IntEnum):
+    SHORT = 2
+    LONG = 100
+    GONE = -1
+    STEP = 3
+
+
+def int_kind_cases(tier, seed):
+    """numbers that are ints without being exactly `int`: an int subclass, IntEnum members - as expiry times, deltas and delays they
+    mean what their value means (the protocol sees digits)"""
+    alpha = [{"op": "set", "key": K, "value": b"5", "expire": ["Seconds", 2], "noreply": False}, {"op": "set", "key": K, "value": b"7", "expire": ["Ttl", "LONG"]},
+             {"op": "add", "key": K, "value": b"1", "expire": ["Ttl", "SHORT"], "noreply": False}, {"op": "touch", "key": K, "expire": ["Seconds", 2], "noreply": False},
+             {"op": "touch", "key": K, "expire": ["Ttl", "GONE"], "noreply": False}, {"op": "incr", "key": K, "delta": ["Seconds", 4]}, {"op": "decr", "key": K, "delta": ["Ttl", "STEP"]},
+             {"op": "gat", "key": K, "expire": ["Ttl", "SHORT"]}, {"op": "gats", "key": K, "expire": ["Seconds", 0]}, {"op": "flush_all", "delay": ["Seconds", 2], "noreply": False},
+             {"op": "get", "key": K}, {"op": "advance", "seconds": 2}, {"op": "set_many", "values": {K: b"9", "k1": b"1"}, "expire": ["Ttl", "SHORT"], "noreply": False},
+             {"op": "cas", "key": K, "value": b"c", "token": "bogus", "expire": ["Seconds", 5]}]
+    for n in (1, 2, 3):
+        for seq in itertools.product(range(len(alpha)), repeat=n):
+            yield {"kind": ("client", "pooled", "hash", "hash-pooled")[(sum(seq) + n) % 4], "cfg": {"key_prefix": b"", "default_noreply": bool(sum(seq) % 2)},
+                   "steps": [alpha[i] for i in seq]}
+
+
 def minimise(case, still_fails):
     steps = ddmin_list(case["steps"], lambda s: still_fails(dict(case, steps=s)))
     return dict(case, steps=steps)
@@ -625,6 +659,7 @@ PARTS = [
     Part("long-lives", "enum", check, cases=soak_cases, shards={"quick": 8, "thorough": 16}),
     Part("exhaustive-short", "enum", check, cases=exhaustive_cases, exhaustive=True, minimise=minimise),
     Part("keys-that-carry-the-prefix", "enum", check, cases=nested_key_cases, exhaustive=True, minimise=minimise),
+    Part("numbers-that-are-int-subclasses", "enum", check, cases=int_kind_cases, exhaustive=True, minimise=minimise),
     Part("random-histories", "hyp", check, strategy=lambda tier: history_strategy(tier).map(_drop_none_noreply),
          examples={"quick": 500, "thorough": 15000}, shards={"quick": 6, "thorough": 16}),
 ]
